@@ -369,6 +369,16 @@ func partForks(c *vh.Ctx, spec cfgSpec, idx int) {
 					return out
 				}())
 		}
+		// ... and the block-context probe really stored the ancestry as seen from this fork: for the block
+		// N in which it last ran (slot NUMBER), BLOCKHASH(N-1) is the hash of this fork's block N-1
+		if tip, _ := n.bc.StateAt(tw.fork[f][len(tw.fork[f])-1].Root()); tip != nil {
+			num := tip.GetState(ctxAddr, common.BytesToHash([]byte{0x32})).Big().Uint64()
+			all := append(append([]*types.Block{}, tw.prefix...), tw.fork[f]...)
+			if num < 2 || int(num) > len(all) || tip.GetState(ctxAddr, common.BytesToHash([]byte{0x10})) != all[num-2].Hash() ||
+				tip.GetState(ctxAddr, common.BytesToHash([]byte{0x30})) != common.BytesToHash(all[num-1].Coinbase().Bytes()) {
+				c.Fatal("block-context probe did not record this fork's ancestry (fork %c, NUMBER slot = %d)", 'A'+f, num)
+			}
+		}
 		n.bc.Stop()
 	}
 	// the forks must be adversarial: the code at X differs and a later block's result depends on it
